@@ -228,6 +228,37 @@ Section SemProofs.
     apply alookup_aset_same. rewrite Hc. discriminate.
   Qed.
 
+  (* ---- an error answer of a modelled body leaves the state as it was ---- *)
+  Lemma aset_same {A} x (a : A) l : alookup x l = Some a -> aset x a l = l.
+  Proof.
+    induction l as [|[m b] r IH]; cbn [alookup aset]; [reflexivity|].
+    destruct (String.eqb m x) eqn:Em.
+    - intros H; injection H as ->. reflexivity.
+    - intros H. rewrite (IH H). reflexivity.
+  Qed.
+
+  Definition error_is_clean (fn : string) : bool :=
+    existsb (String.eqb fn) ["cv_list"; "colvar_get"; "bias_get"; "colvar_cvcflags"; "bias_bin"; "bias_bincount"; "bias_binnum";
+                             "bias_local_sample_count"; "bias_share"].
+
+  Lemma error_answer_changes_nothing (st : sem) e words :
+    error_is_clean (e_name e) = true -> snd (body_sem st e words) = QErr -> fst (body_sem st e words) = st.
+  Proof.
+    unfold error_is_clean. intros H. apply existsb_exists in H. destruct H as [x [Hin Hx]]. apply String.eqb_eq in Hx. subst x.
+    destruct Hin as [Hn|[Hn|[Hn|[Hn|Hin]]]].
+    - unfold body_sem. rewrite <- Hn. cbn -[alookup]. destruct (nth_error words 2); intros _; reflexivity.
+    - unfold body_sem. rewrite <- Hn. cbn -[alookup feature_query]. intros _. reflexivity.
+    - unfold body_sem. rewrite <- Hn. cbn -[alookup feature_query]. intros _. reflexivity.
+    - unfold body_sem. rewrite <- Hn. cbn -[alookup set_cvcs set_pending parse_flags].
+      destruct (alookup (nth 2 words "") (sm_cv st)) as [cs|] eqn:Ec; [|intros _; reflexivity].
+      destruct (cs_cvcs cs) as [cur|] eqn:Ecur; [|cbn [snd]; discriminate].
+      unfold set_pending. destruct (List.length (parse_flags (nth 4 words "")) =? List.length cur)%nat; cbn [fst snd]; [discriminate|].
+      intros _. unfold set_cvcs. rewrite Ec. rewrite <- Ecur.
+      replace (mk_cvsem (cs_data cs) (cs_collect cs) (cs_valid cs) (cs_cvcs cs) (cs_pending cs)) with cs by (destruct cs; reflexivity).
+      rewrite (aset_same _ _ _ Ec). destruct st; reflexivity.
+    - unfold body_sem. repeat (destruct Hin as [Hn|Hin]; [rewrite <- Hn; cbn -[alookup]; intros _; reflexivity|]). destruct Hin.
+  Qed.
+
   (* the data stay attached to the objects that exist, over every history *)
   Lemma resync_wf (st : sem) objs : sem_wf (resync st objs).
   Proof.
@@ -247,6 +278,7 @@ Section SemProofs.
     unfold body_sem.
     destruct (pure_query st (e_name e) (nth 2 words "") (nth_error words 2)); [split; [split; assumption | reflexivity]|].
     destruct (inert (e_name e)); [split; [split; assumption | reflexivity]|].
+    destruct (grid_only (e_name e)); [split; [split; assumption | reflexivity]|].
     destruct (String.eqb (e_name e) "colvar_get"); [split; [split; assumption | reflexivity]|].
     destruct (String.eqb (e_name e) "bias_get"); [split; [split; assumption | reflexivity]|].
     destruct (String.eqb (e_name e) "colvar_getgradients").
